@@ -38,8 +38,14 @@ def nl(bs):
     return "(@nil N)" if not bs else "[" + ";".join(str(b) for b in bs) + "]%N"
 
 
+def num(x):
+    # big decimal literals are parsed by a quadratic Coq-level conversion (seconds per expression);
+    # hexadecimal literals are linear
+    return str(x) if x < (1 << 32) else hex(x)
+
+
 def zl(xs):
-    return "(@nil Z)" if not xs else "[" + ";".join(str(x) for x in xs) + "]%Z"
+    return "(@nil Z)" if not xs else "[" + ";".join(num(x) for x in xs) + "]%Z"
 
 
 def kind(k):
@@ -92,7 +98,7 @@ class Points:
         self.tab = {}
 
     def need(self, toks):
-        want = sorted({t - TOK for t in toks if t >= 256} - set(self.tab))
+        want = sorted({t - TOK for t in toks if t >= TOK} - set(self.tab))
         if not want:
             return
         inp = "\n".join("%064x" % d for d in want) + "\n"
@@ -105,12 +111,14 @@ class Points:
                 self.tab[int(a[0], 16)] = bytes.fromhex(a[1])
 
     def expand(self, toks):
+        """entries >= 2^260: group-element token; otherwise a packed run of n <= 30 bytes (SigmaExec.pack)"""
         out = bytearray()
         for t in toks:
-            if t < 256:
-                out.append(t)
-            else:
+            if t >= TOK:
                 out += self.tab[t - TOK]
+            else:
+                n = t >> 240
+                out += (t & ((1 << 240) - 1)).to_bytes(n, "big")
         return bytes(out)
 
 
@@ -241,8 +249,18 @@ def run(ctx):
         pubs = [int(x, 16) for x in cs["pub"]]
         resp = scalars(cs)
         todo = [pe for pe in cs["pert"] if pe[0].startswith("pub") or pe[0].startswith("resp")]
-        if len(todo) > 12:  # large sizes: first, last and a spread
-            todo = todo[:3] + todo[len(todo) // 2 - 1:len(todo) // 2 + 2] + todo[-3:] + [pe for pe in todo if not pe[1]][:6]
+        cap = 5 if ctx.quick else 12
+        if len(todo) > cap:  # first/last public field, first/last response component, everything that was accepted
+            pubp = [pe for pe in todo if pe[0].startswith("pub")]
+            resp_p = [pe for pe in todo if pe[0].startswith("resp")]
+            pick = pubp[:1] + pubp[-1:] + resp_p[:1] + resp_p[-1:] + [pe for pe in todo if not pe[1]][:2]
+            if not ctx.quick:
+                pick += pubp[1:4] + resp_p[1:4]
+            seen_nm, todo = set(), []
+            for pe in pick:
+                if pe[0] not in seen_nm:
+                    seen_nm.add(pe[0])
+                    todo.append(pe)
         for pe in todo:
             nm = pe[0]
             if nm.startswith("pub"):
